@@ -12,6 +12,7 @@ import DimodProofs.IneqCoded
 import DimodProofs.DqmIneq
 import DimodProofs.CqmSlackFresh
 import DimodProofs.InverterOnto
+import DimodProofs.InverterOnto2
 
 /-! # C16 — constraint-to-penalty conversions penalise exactly the violating assignments
 
@@ -418,6 +419,30 @@ theorem inverter_inverts (vars : List (Label × VKind)) (z : Label → Rat) :
   ⟨invert_spec vars z, fun v h => decode_binary vars z v h, fun v h hz => decode_spin_dom vars z v h hz,
    fun v lb ub bits h hb => decode_integer vars z v lb ub h bits hb⟩
 
+/-- **`cqm_to_bqm` refuses label conflicts** (as repaired, D64): whenever the conversion succeeds, no `binary_encoding` bit
+    of any integer variable is itself a variable label of the CQM — so a BQM variable is either a CQM binary/spin
+    variable or a bit of exactly one integer, never both -/
+theorem cqm_to_bqm_bits_not_variables (q : CQM) (lam? : Option Rat) (b : Bq Label) (lam : Rat) (h : cqmToBqm q lam? = .ok (b, lam)) :
+    ∀ v lb ub e, (v, VKind.integer lb ub) ∈ q.vars → binaryEncoding v ub.toNat = some e → ∀ bit ∈ e, bit.1 ∉ q.vars.map (·.1) := by
+  unfold cqmToBqm at h
+  split at h
+  · simp at h
+  · rename_i init hinit
+    unfold cqmInitVars at hinit
+    split at hinit
+    · simp at hinit
+    · rename_i bits hbits
+      exact cqmInitBits_fresh _ q.vars bits hbits
+
+/-- … and a CQM whose first integer has a bit labelled like one of the CQM's variables is refused with the
+    "conflicting variables" error — e.g. integer `i` (upper bound 3) next to a binary variable `('i', 1)` -/
+theorem cqm_to_bqm_conflict_witness :
+    let q : CQM := { vars := [(.str "i", .integer 0 3), (.tup [.str "i", .int 1], .binary)],
+                     obj := { lin := [(.str "i", 1), (.tup [.str "i", .int 1], 10)], quad := [], off := 0 }, cons := [] }
+    (match cqmToBqm q (some 1) with
+     | .error .conflict => true
+     | _ => false) = true := by decide +kernel
+
 /-- **inverter round trip, variable by variable**: every value of a CQM variable's domain is the inverter's image of
     some setting of *that variable's own* BQM bits, all other bits unchanged — binary: `0/1`; spin: `±1`; integer
     `0..ub` (through `binary_encoding`, whose bit labels are pairwise different).  With `inverter_inverts` (the inverter
@@ -431,6 +456,30 @@ theorem inverter_round_trip (vars : List (Label × VKind)) (v : Label) (z : Labe
         ∃ z', Bin01 z' ∧ (∀ l, l ∉ bits.map (·.1) → z' l = z l) ∧ decode vars (toRat z') v = (((t : Nat) : Int) : Rat)) :=
   ⟨fun h b => inverter_reaches_binary vars v h z hz b, fun h b => inverter_reaches_spin vars v h z hz b,
    fun lb ub bits h hb t ht => inverter_reaches_integer vars v lb ub h bits hb z hz t ht⟩
+
+/-- **the inverter is onto, all variables at once**: whenever `cqm_to_bqm` succeeds (variable labels pairwise
+    different, as in every CQM), every assignment of the CQM variables within their domains (binary `0/1`, spin `±1`,
+    integer `0..ub`) is the inverter's image of some 0/1 sample of the BQM.  Uses the conflict refusal (D64): the bits of
+    different variables are pairwise disjoint, so each variable can be set without disturbing the others. -/
+theorem inverter_onto (q : CQM) (lam? : Option Rat) (b : Bq Label) (lam : Rat) (h : cqmToBqm q lam? = .ok (b, lam))
+    (hnd : (q.vars.map (·.1)).Nodup) (target : Label → Rat) (hdom : ∀ p ∈ q.vars, InDom p.2 (target p.1)) :
+    ∃ z, Bin01 z ∧ ∀ p ∈ q.vars, decode q.vars (toRat z) p.1 = target p.1 := by
+  unfold cqmToBqm at h
+  split at h
+  · simp at h
+  · rename_i init hinit
+    unfold cqmInitVars at hinit
+    split at hinit
+    · simp at hinit
+    · rename_i bits hbits
+      have hfresh := cqmInitBits_fresh _ q.vars bits hbits
+      have henc := cqmInitBits_encodes _ q.vars bits hbits
+      apply onto_aux q.vars target q.vars ?_ (pairwise_bits_disjoint q.vars hnd hfresh q.vars (fun p hp => hp) hnd) (fun _ => 0) (fun _ => Or.inl rfl)
+      intro p hp
+      refine ⟨kindOf_of_mem_nodup q.vars hnd p hp, hdom p hp, ?_⟩
+      intro lb ub hk
+      have : (p.1, VKind.integer lb ub) ∈ q.vars := by rw [← hk]; exact hp
+      exact henc p.1 lb ub this
 
 /-- the bit labels of `binary_encoding(v, ub)` are pairwise different -/
 theorem binary_encoding_labels_distinct (v : Label) (ub : Nat) (l : List (Label × Nat)) (h : binaryEncoding v ub = some l) :
